@@ -216,6 +216,10 @@ func (z *zmodemTransfer) handleServerOutput(buf []byte) bool {
 	if bytes.Contains(buf, zmodemCancelSubSequence) || bytes.Contains(buf, zmodemCanNotOpenFile) {
 		z.cleaned.Store(true)
 		z.stopped.Store(true)
+		if cmd := z.cmd.Load(); cmd != nil { // the client has been started meanwhile and did not see the stop
+			_ = writeAll(z.stdin, zmodemCancelFullSequence)
+			z.ensureClientExit(cmd)
+		}
 		return false
 	}
 
